@@ -45,6 +45,11 @@ What is proved (all fanouts, all numbers of targets, all fault vectors, all sche
   connect, or it holds stdout open and is gone within K of the forwarded SIGTERM: virtual time ≤
   n·(ct+ut+2·WDOG_POLL+K) until dsh() returns), `terminates_no_hang_ut0` (no command timeout but no stream hangs:
   ≤ n·(ct+WDOG_POLL+K) + Σ scripted stream ends) and `never_stuck`;
+* the two bounds and `immortal_never_returns` are about the tree as it is (`Cfg.killAfter = false`, stated); the
+  repair of F07-TEARDOWN-WAIT (a) is a SWITCH of the model (`Cfg.killAfter`: `Host.giveUp` = SIGTERM, one watchdog
+  period of grace, SIGKILL, only then `rcmd_destroy`), probed by behaviour, and the acceptor runs the variant the tree
+  shows: `kill_after_teardown_does_not_wait`, `kill_after_grace_is_one_period` + witness (the immortal target's run
+  returns at second 4); all other theorems hold for both values;
 * `immortal_never_returns`: WITHOUT the hypothesis `Td` the bound fails — once a command that neither exits nor
   reacts to SIGTERM has been started, dsh() never returns, command timeout or not (the teardown waits for it:
   witness below; on the real `pdsh -R exec -u 1` this is finding F07-TEARDOWN-WAIT).
